@@ -5,7 +5,7 @@ Purely syntactic and library-agnostic: it knows nothing about what a name, attri
 fallback text is used, which the runner reports as a broken obligation of the properties the flow is listed under.
 
 Subset: assignments to names / tuples of names (annotated ones too), augmented assignment, return, raise <Class>(...),
-attribute assignment on a local (x.a = e), if/elif/else, while and for (without break/continue/else), `with <ctx> [as y]`
+attribute assignment on a local (x.a = e, also spelled object.__setattr__(x, "a", e)), if/elif/else, while and for (without break/continue/else), `with <ctx> [as y]`
 (one item), subscript/slice assignment on a local or its attribute, break/continue, expression statements, pass, docstrings; expressions: names, dotted module-level names, attributes,
 int/bytes/str/None/bool constants, f-strings (as a call "f-string"), calls (positional + keyword), method calls,
 comparisons (chained), not/and/or, binary operators, unary minus, tuples, lists, dict displays (as a call "dict"),
@@ -222,6 +222,12 @@ class FlowTranslator:
         if isinstance(st, ast.Expr):
             if isinstance(st.value, ast.Constant) and isinstance(st.value.value, str):
                 return ""
+            c = st.value
+            if (isinstance(c, ast.Call) and ast.unparse(c.func) == "object.__setattr__" and len(c.args) == 3 and not c.keywords
+                    and isinstance(c.args[0], ast.Name) and c.args[0].id in self.locals
+                    and isinstance(c.args[1], ast.Constant) and isinstance(c.args[1].value, str)):
+                # object.__setattr__(x, "a", e) on a local x is the attribute store x.a = e (it only bypasses a frozen dataclass's guard)
+                return f"SSetAttr {_s(c.args[0].id)} {_s(c.args[1].value)} {self.e(c.args[2])}"
             return f"SExpr {self.e(st.value)}"
         if isinstance(st, ast.Pass):
             return "SPass"
